@@ -1323,14 +1323,9 @@ theorem C12_gen_constants :
     stateValues = [("ON", 1), ("OFF", 2), ("BOOTING", 3), ("SHUTTING_DOWN", 4)] ∧
     defaultUpDur = 3 ∧ defaultDownDur = 3 ∧ defaultUpCd = 0 ∧ defaultDownCd = 0 ∧ defaultResetting = false := by decide
 
-/-- the statement-level shape of the four power methods is the one `powerOn`/`powerOff`/`reset`/`tick` model -/
-theorem C12_gen_shapes :
-    powerOnShape = "if(start_up_duration <= 0)[operating_state=ON;_start_up_actions();nics.enable;ret True];if(operating_state == OFF)[operating_state=BOOTING;start_up_countdown=start_up_duration;ret True];ret False" ∧
-    powerOffShape = "if(shut_down_duration <= 0)[nics.disable;_shut_down_actions();operating_state=OFF;if(is_resetting)[is_resetting=False;power_on()];ret True];if(operating_state == ON)[nics.disable;operating_state=SHUTTING_DOWN;shut_down_countdown=shut_down_duration;ret True];ret False" ∧
-    resetShape = "if(operating_state.ON)[is_resetting=True;power_off();ret True];ret False" ∧
-    tickShape = "super;nics.apply_timestep;if(start_up_countdown > 0)[start_up_countdown-=1]else[if(operating_state == BOOTING)[operating_state=ON;nics.enable;_start_up_actions()]];if(shut_down_countdown > 0)[shut_down_countdown-=1]else[if(operating_state == SHUTTING_DOWN)[operating_state=OFF;_shut_down_actions();if(is_resetting)[is_resetting=False;power_on()]]];if(operating_state == ON)[software]" ∧
-    shutDownActionsShape = "self.services:stop;self.applications:close" ∧
-    startUpActionsShape = "self.services:start;self.applications:run" := ⟨rfl, rfl, rfl, rfl, rfl, rfl⟩
+/- `C12_gen_shapes` (a string pin of the statement shape of the four power methods, rounds 1–6) is replaced by a tie BY
+MEANING: the bodies are translated statement by statement (`Gen/PowerProg.lean`) and proved equal to `powerOn` / `powerOff` /
+`reset` / `tickDown ∘ tickUp` / the actions for every node — `Props/C12Prog.lean`, `C12_gen_power_on_sem` etc. -/
 
 /-- interfaces: `enable()` refuses when the node is not ON; every receive/send entry point starts with the `enabled` test -/
 theorem C12_gen_interfaces :
